@@ -277,7 +277,8 @@ func verb(q string) string {
 
 // RunCase generates and runs program `idx` of the seed.
 func RunCase(seed uint64, idx, steps, malformedPct int, out *Output) CaseOut {
-	r := hutil.NewRng(seed).Fork(uint64(idx) + 1)
+	// hutil.Rng streams of nearby seeds are shifted copies of each other: spread the index
+	r := hutil.NewRng(seed).Fork((uint64(idx) + 1) * 0xD1342543DE82EF95)
 	sch := genSchema(r, idx)
 	co := CaseOut{Index: idx, Table: sch.Table, DDL: sch.ddl()}
 	dsn := fmt.Sprintf("u:p@tcp(127.0.0.1:3306)/stmtx_%d_%d?interpolateParams=true", seed, idx)
